@@ -30,6 +30,17 @@ class C09(WrapHarness):
         out.append({'feat': 'full', 'algo': 'F' if q else 'O', 'sep': 'U', 'split': 'H', 'bw': True, 'le': 'LF', 'ind': 'si',
                     'imax': 1, 'mode': 'indep', 'na': 1 if q else 2, 'nb': 2, 'na2': 1, 'alpha': [' ', 'a', '-', '你'],
                     'wmax': 1 << 20})
+        # sentence templates for the two parts (paragraph-sized a and b with symbolic positions)
+        tb = {'feat': 'full', 'algo': 'F', 'sep': 'A', 'split': 'H', 'bw': True, 'le': 'LF', 'ind': 'si', 'imax': 1,
+              'wmax': 1 << 20, 'na': 0, 'nb': 0, 'na2': 1}
+        pairs = [('ab c?', 'de-? f'), ('a?\n\nb', '?c d')] if q else \
+            [('ab c?', 'de-? f'), ('a?\n\nb', '?c d'), ('The qu?ck brown', 'f?x jumps-?ver'), ('aaaa?aaa ', ' ?bbbbbbb c')]
+        for ta, tb_ in pairs:
+            out.append(dict(tb, mode='prefix', ta=ta, tb=tb_))
+            out.append(dict(tb, mode='indep', ta=ta, tb=tb_))
+            if not q:
+                out.append(dict(tb, mode='prefix', ta=ta, tb=tb_, le='CRLF', ind='both'))
+                out.append(dict(tb, mode='prefix', ta=ta, tb=tb_, algo='O', ind='none'))
         if not q:
             for ind in ('both',):
                 out.append({'feat': 'full', 'algo': 'O', 'sep': 'A', 'split': 'H', 'bw': True, 'le': 'CRLF', 'ind': ind,
@@ -42,6 +53,8 @@ class C09(WrapHarness):
                 'Unicode separator over a small alphabet')
 
     def gen_part(self, I, cfg, n, tag):
+        if 't' + tag in cfg:
+            return gen_tmpl(I, cfg['t' + tag], tag, exclude=(13, ESC))
         if 'alpha' in cfg:
             return gen_alpha(I, n, cfg['alpha'], lenvar=True)
         return gen_text(I, n, tag, (1,), exclude=(13,), lenvar=True)
